@@ -11,7 +11,7 @@ class Sublayout(PipelineBase):
         PipelineBase.__init__(self,**kw); self.inner_steps=inner_steps
         self.bounds={'outer_layout':'1 step (threshold 1) delegated to a sub-layout filed under F0 (authorized) or F1 (in the key table, not authorized for the step)',
                      'sub_layout':'%d inner step(s), 1 inner functionary; 1-2 signatures labelled F0/F1 with free made_by/intact/over; expiry in the future or the past'%inner_steps,
-                     'inner_links':'per inner step: absent / present in the dedicated sub-directory with free signature validity; decoy links for the inner steps may sit in the parent directory or in a sibling-looking directory; the delegated step is named "b.r" (dotted)',
+                     'inner_links':'per inner step: absent / present in the dedicated sub-directory with free signature validity; decoy links for the inner steps may sit in the parent directory, in a sibling-looking directory or in a directory whose name extends that of the dedicated one (<step>.<prefix>.orig); the delegated step is named "b.r" (dotted)',
                      'summary':'requested name "final"; inner links carry distinct materials/products/commands/return values','hash_map_iteration':'every permutation'}
         self.witnesses=['ok_delegated','err_inner_unsigned','err_inner_expired','err_inner_link_missing','err_only_decoys']
     def mk_args(self,run):
@@ -26,9 +26,9 @@ class Sublayout(PipelineBase):
         inner_expired=bool(run.pick(2,'inner_expired'))
         OUT=self.outer_name
         isteps=[]; sub=((OUT,filed),); dirs={():[],sub:[]}; ilinks=[]
-        decoys=run.pick(3,'decoys')        # 0 none, 1 in the parent directory, 2 in a sibling-looking directory <stem>.<prefix>
-        sib=((OUT.split('.')[0],filed),)
-        if decoys==2: dirs[sib]=[]
+        decoys=run.pick(4,'decoys')        # 0 none, 1 in the parent directory, 2 in a sibling-looking directory <stem>.<prefix>, 3 in a directory whose name EXTENDS the dedicated one (<step>.<prefix>.orig)
+        sib=((OUT.split('.')[0],filed),) if decoys!=3 else ((OUT,filed,'.orig'),)
+        if decoys in (2,3): dirs[sib]=[]
         for i in range(self.inner_steps):
             nm='i%d'%i
             isteps.append(StepD(nm,1,[G]))
